@@ -37,6 +37,7 @@ def build(c, tile=1):
         "secondary/lat": ("secondary/collocation", np.linspace(-10, 10, NS)),
         "secondary/lon": ("secondary/collocation", np.linspace(0, 50, NS)),
         "secondary/bt": (("secondary/collocation", "secondary/channel"), np.array(sv).reshape(NS, -1)),
+        "secondary/bt2": (("secondary/collocation", "secondary/channel"), np.array(sv).reshape(NS, -1) * 2.0 + 1.0),
         "Collocations/pairs": (("Collocations/group", "Collocations/collocation"), pairs),
         "Collocations/interval": ("Collocations/collocation", np.zeros(M, dtype="timedelta64[s]")),
         "Collocations/distance": ("Collocations/collocation", np.zeros(M)),
@@ -77,7 +78,8 @@ def check_collapse(col, c, ds, conf):
     for ref, key in (("primary", "colp"), (None, "colp"), ("secondary", "cols")):
         label = "collapse-" + (ref or "default")
         try:
-            kw = {"collapser": {"max": lambda m, a: np.nanmax(m, axis=a)}} if ref == "primary" else {}
+            # a reducing custom collapser and one that hands back a VIEW of the bin matrix (first partner in pair order)
+            kw = {"collapser": {"max": lambda m, a: np.nanmax(m, axis=a), "first": lambda m, a: m[0]}} if ref == "primary" else {}
             with np.errstate(all="ignore"):
                 r = collapse(ds, reference=ref, **kw)
         except Exception as ex:
@@ -92,6 +94,12 @@ def check_collapse(col, c, ds, conf):
                 std = r["secondary/bt_std"].values
                 num = r["secondary/bt_number"].values
                 mx = r["secondary/bt_max"].values if ref == "primary" else None
+                if ref == "primary":
+                    # bt2 = 2 * bt + 1 element-wise, so every statistic of bt2 is determined by the one of bt
+                    f1, f2 = r["secondary/bt_first"].values, r["secondary/bt2_first"].values
+                    if not same(f2, 2.0 * f1 + 1.0) or not same(r["secondary/bt2_max"].values, 2.0 * mx + 1.0) \
+                            or not same(r["secondary/bt2_number"].values, num):
+                        raise AssertionError("second variable of the same shape disagrees with the first (first/max/number)")
                 ok = same(refv, [val(x["ref"]) for x in rows]) and mean.shape == (len(rows), len(rows[0]["stat"]))
                 if ok:
                     for i, row in enumerate(rows):
